@@ -97,7 +97,8 @@ def replay(p):
     if what in ('gme', 'eof_cf'):
         fn = MEAS.get_gme_2qubit if what == 'gme' else EOF.get_eof_2qubit
         prev = None
-        for c in [0.0] + list(np.linspace(1e-6, 1, 41)):
+        extra_c = [float(x) for x in p.get('c', []) if 0 < float(x) <= 1]
+        for c in [0.0] + extra_c + [x_ * f_ for x_ in extra_c for f_ in (0.5, 2.0) if x_ * f_ <= 1] + list(np.geomspace(1e-7, 1e-1, 25)) + list(np.linspace(1e-6, 1, 41)):
             pp = (1 + 2 * c) / 3                                # p|Phi+><Phi+| + (1-p) I/4 has concurrence (3p-1)/2
             phi = np.array([1, 0, 0, 1]) / np.sqrt(2)
             rho = pp * np.outer(phi, phi) + (1 - pp) * np.eye(4) / 4
@@ -106,7 +107,7 @@ def replay(p):
             want = (1 - math.sqrt(max(0.0, 1 - cc * cc))) / 2 if what == 'gme' else None
             bad = not np.isfinite(v) or v < -1e-12 or (c == 0 and abs(v) > 1e-12) or (cc > 1e-4 and v <= 0)
             if what == 'gme':
-                bad |= abs(v - want) > 1e-9 or v > 0.5 + 1e-12
+                bad |= abs(v - want) > 1e-9 * max(1e-9, abs(want)) + 1e-15 or v > 0.5 + 1e-12        # relative: tiny concurrences give tiny values
             if prev is not None and cc > 1e-4 and v < prev - 1e-12:
                 bad = True
             if bad:
@@ -395,8 +396,8 @@ def run(chk):
                     ir.band_all([H.eq_sc(v * v, X), ir.rcmp('le', ir.ZERO, v.re)]), key='get_concurrence_pure != 2|det|', replay=rp)
     for name, mod, fn in (('get_gme_2qubit', MEAS, MEAS.get_gme_2qubit), ('get_eof_2qubit', EOF, EOF.get_eof_2qubit)):
         chk.configurations += 1
-        rp = ('c13', {'what': 'gme' if name == 'get_gme_2qubit' else 'eof_cf'})
         c1, c2 = S.sc_var(name + '_c1'), S.sc_var(name + '_c2')
+        rp = ('c13', lambda m, name=name: {'what': 'gme' if name == 'get_gme_2qubit' else 'eof_cf', 'c': [float(m.get(name + '_c1', 0)), float(m.get(name + '_c2', 0))]})
         rng_pre = [(c1 >= 0).n, (c1 <= 1).n, (c2 >= 0).n, (c2 <= 1).n]
         cur = [c1]
         eg = {mod.__name__: {'get_concurrence_2qubit': lambda rho: cur[0]}}
